@@ -106,91 +106,265 @@ func FocusFilter(p *core.Program, r *core.Report, rule string) {
 	} else {
 		r.Lost(rule, "ConnlistAnalyzer.peersList")
 	}
-	// who-may-call the predicate
-	callers := map[string]string{"includePairOfWorkloads": "pair filter", "shouldAddPeerGeneralExposureData": "exposure general data filter", "getConnectionsList": "peers list for the dot format", "existsFocusWorkload": "existence check"}
-	for _, cs := range CallsTo(p, pred.Obj) {
-		why, ok := callers[cs.In.Obj.Name()]
-		r.Check(ok, rule+"-call", cs.In.Key()+": applies the focus predicate", p.Pos(cs.Call.Pos()), why, "the focus predicate is consulted in a new place: the filter must be applied only where rows are selected, never where connections are computed")
+	// where the predicate is consulted: anywhere rows are selected, but never as a condition for feeding the policy
+	// engine or the ingress analyzer - no call that writes their state may be control-dependent on the predicate
+	// (decided on the path condition at each such call, in every function that mentions the predicate)
+	engineTypes := map[*types.Named]bool{}
+	if nt := p.LookupType(core.PkgEval, "PolicyEngine"); nt != nil {
+		engineTypes[nt] = true
 	}
-	r.Floor(rule+"-call", 4)
-	// the predicate: no focus, or exact name, or exact namespace/name
-	{
-		info := pred.Pkg.TypesInfo
-		ok := false
-		desc := ""
-		// the predicate's verdict: its only return statement (statements before it are allowed as long as there is one return)
-		var rets []*ast.ReturnStmt
-		ast.Inspect(pred.Decl.Body, func(n ast.Node) bool {
-			if _, isLit := n.(*ast.FuncLit); isLit {
-				return false
+	if nt := p.LookupType(core.PkgIngress, "IngressAnalyzer"); nt != nil {
+		engineTypes[nt] = true
+	}
+	writerMemo := map[*types.Func]bool{}
+	writesEngine := func(fn *types.Func) bool {
+		if v, ok := writerMemo[fn]; ok {
+			return v
+		}
+		res := false
+		if fn.Pkg() != nil && (fn.Pkg().Path() == core.PkgEval || fn.Pkg().Path() == core.PkgIngress) {
+			fns := []*types.Func{fn}
+			for g := range p.Reachable(fn) {
+				fns = append(fns, g)
 			}
-			if rt, isRet := n.(*ast.ReturnStmt); isRet {
-				rets = append(rets, rt)
+			for _, g := range fns {
+				gd := p.ByObj[g]
+				if gd == nil || res {
+					continue
+				}
+				ginfo := gd.Pkg.TypesInfo
+				ownerIsEngine := func(e ast.Expr) bool {
+					for {
+						switch x := ast.Unparen(e).(type) {
+						case *ast.IndexExpr:
+							e = x.X
+							continue
+						case *ast.StarExpr:
+							e = x.X
+							continue
+						case *ast.SelectorExpr:
+							if core.FieldOf(ginfo, x) != nil {
+								t := ginfo.TypeOf(x.X)
+								if pt, isP := t.Underlying().(*types.Pointer); isP {
+									t = pt.Elem()
+								}
+								if nt := core.NamedOf(t); nt != nil && engineTypes[nt] {
+									return true
+								}
+							}
+							e = x.X
+							continue
+						}
+						return false
+					}
+				}
+				ast.Inspect(gd.Decl.Body, func(n ast.Node) bool {
+					switch x := n.(type) {
+					case *ast.AssignStmt:
+						for _, l := range x.Lhs {
+							if ownerIsEngine(l) {
+								res = true
+							}
+						}
+					case *ast.CallExpr:
+						if core.IsBuiltinCall(ginfo, x, "delete") && ownerIsEngine(x.Args[0]) {
+							res = true
+						}
+					}
+					return !res
+				})
+			}
+		}
+		writerMemo[fn] = res
+		return res
+	}
+	nUses := 0
+	for _, fd := range p.Funcs {
+		info := fd.Pkg.TypesInfo
+		uses := false
+		ast.Inspect(fd.Decl.Body, func(n ast.Node) bool {
+			if id, ok := n.(*ast.Ident); ok && info.Uses[id] == types.Object(pred.Obj) {
+				uses = true
+				nUses++
 			}
 			return true
 		})
-		if len(rets) == 1 {
-			if ret := rets[0]; len(ret.Results) == 1 {
-				parts := flattenOr(ret.Results[0])
-				var kinds []string
-				allEq := true
-				for _, e := range parts {
-					be, isBE := ast.Unparen(e).(*ast.BinaryExpr)
-					if !isBE || be.Op != token.EQL {
-						allEq = false
-						kinds = append(kinds, core.ExprStr(e))
-						continue
-					}
-					l, rr := core.ExprStr(be.X), core.ExprStr(be.Y)
-					mentionsFocus := core.FieldOf(info, be.X) == fld || core.FieldOf(info, be.Y) == fld
-					switch {
-					case !mentionsFocus:
-						allEq = false
-						kinds = append(kinds, "no-focus:"+l+"=="+rr)
-					case l == `""` || rr == `""`:
-						kinds = append(kinds, "empty")
-					case strings.HasSuffix(l, ".Name()") || strings.HasSuffix(rr, ".Name()"):
-						kinds = append(kinds, "name")
-					case strings.Contains(l, "getPeerNsNameFormat(") || strings.Contains(rr, "getPeerNsNameFormat("):
-						kinds = append(kinds, "nsname")
-					default:
-						allEq = false
-						kinds = append(kinds, l+"=="+rr)
-					}
+		if !uses {
+			continue
+		}
+		bad := ""
+		w := facts.NewWalker(info)
+		w.OnExpr = func(e ast.Expr, f facts.Formula) {
+			c, ok := e.(*ast.CallExpr)
+			if !ok || bad != "" {
+				return
+			}
+			fn := core.Callee(info, c)
+			if fn == nil || !writesEngine(fn) {
+				return
+			}
+			for _, a := range facts.Atoms(f) {
+				if strings.Contains(a, "."+pred.Obj.Name()) && (facts.Entails(f, facts.Atom(a)) || facts.Entails(f, facts.Not{X: facts.Atom(a)})) {
+					bad = "the call of " + core.FuncKey(fn) + " at " + p.Pos(c.Pos()) + " runs only under " + facts.StripVersions(a)
 				}
-				sort.Strings(kinds)
-				desc = strings.Join(kinds, " || ")
-				ok = allEq && desc == "empty || name || nsname"
 			}
 		}
-		r.Check(ok, rule+"-pred", pred.Key()+": matches iff no focus is given, or the name equals it, or namespace/name equals it", p.Pos(pred.Decl.Pos()), desc,
-			"the focus predicate is not the disjunction of the three exact equalities (focus == \"\", peer.Name() == focus, namespace/name == focus): "+desc+" - prefix/suffix/substring matching selects other workloads' entries and makes an absent name match")
+		w.WalkBody(fd.Decl.Body, nil)
+		r.Check(bad == "", rule+"-call", fd.Key()+": consults the focus predicate, but not to decide what the policy engine or the ingress analyzer is fed", p.Pos(fd.Decl.Pos()), "",
+			"the focus predicate decides whether the engine is fed ("+bad+"): the filter must be applied only where rows are selected, never where connections are computed")
 	}
-	// the pair filter ends in pred(src) || pred(dst)
+	r.RuleCounts[rule+"-call"] = nUses
+	r.Floor(rule+"-call", 1)
+	// the predicate: no focus, or exact name, or exact namespace/name. Decided on every exit of the predicate: under
+	// the exit's path condition its answer is equivalent to (none | name | nsname), whatever the shape (one
+	// expression, guard clauses, a switch). The three tests are canonical atoms built by what is compared with the
+	// focus option; any other test that involves the option has an atom of its own and breaks the equivalence.
+	{
+		info := pred.Pkg.TypesInfo
+		sig := pred.Obj.Type().(*types.Signature)
+		var peer *types.Var
+		if sig.Params().Len() == 1 {
+			peer = sig.Params().At(0)
+		}
+		isFocus := func(e ast.Expr) bool { return FieldBehind(pred, e) == fld }
+		nsNameFn := func(fn *types.Func) bool {
+			d := p.ByObj[fn]
+			if d == nil {
+				return false
+			}
+			ns, nm := false, false
+			ast.Inspect(d.Decl.Body, func(n ast.Node) bool {
+				if se, ok := n.(*ast.SelectorExpr); ok {
+					ns = ns || se.Sel.Name == "Namespace"
+					nm = nm || se.Sel.Name == "Name"
+				}
+				return true
+			})
+			return ns && nm
+		}
+		w := facts.NewWalker(info)
+		w.Inline = true
+		w.Atomize = func(w *facts.Walker, e ast.Expr) facts.Formula {
+			be, ok := e.(*ast.BinaryExpr)
+			if !ok || (be.Op != token.EQL && be.Op != token.NEQ) {
+				if c, isC := e.(*ast.CallExpr); isC {
+					// a non-equality test that involves the focus option (HasSuffix, Contains, ...)
+					for _, a := range c.Args {
+						if isFocus(a) {
+							return facts.Atom("focus:other:" + core.Stable(info, e))
+						}
+					}
+				}
+				return nil
+			}
+			l, rr := ast.Unparen(be.X), ast.Unparen(be.Y)
+			if isFocus(rr) {
+				l, rr = rr, l
+			}
+			if !isFocus(l) {
+				return nil
+			}
+			var at facts.Formula
+			if v, isC := core.ConstString(info, rr); isC && v == "" {
+				at = facts.Atom("focus:none")
+			} else if c, isC := rr.(*ast.CallExpr); isC {
+				if se, isSe := ast.Unparen(c.Fun).(*ast.SelectorExpr); isSe && se.Sel.Name == "Name" && len(c.Args) == 0 {
+					if id, isId := ast.Unparen(se.X).(*ast.Ident); isId && peer != nil && info.ObjectOf(id) == types.Object(peer) {
+						at = facts.Atom("focus:name")
+					}
+				} else if fn := core.Callee(info, c); fn != nil && len(c.Args) == 1 && nsNameFn(fn) {
+					if id, isId := ast.Unparen(c.Args[0]).(*ast.Ident); isId && peer != nil && info.ObjectOf(id) == types.Object(peer) {
+						at = facts.Atom("focus:nsname")
+					}
+				}
+			}
+			if at == nil {
+				at = facts.Atom("focus:other:" + core.Stable(info, e))
+			}
+			if be.Op == token.NEQ {
+				return facts.MkNot(at)
+			}
+			return at
+		}
+		nExit := 0
+		bad := ""
+		w.OnExit = func(st int, ret *ast.ReturnStmt, f facts.Formula) {
+			if w.FuncLitDepth > 0 || ret == nil || len(ret.Results) != 1 || !facts.Satisfiable(f) {
+				return
+			}
+			nExit++
+			none := facts.Formula(facts.Atom("focus:none"))
+			for _, a := range facts.Atoms(f) {
+				if strings.HasPrefix(a, "empty:") && strings.HasSuffix(facts.StripVersions(a), "."+fld.Name()) {
+					none = facts.Or{L: none, R: facts.Atom(a)}
+				}
+			}
+			ans := w.Cond(ret.Results[0])
+			for _, a := range facts.Atoms(ans) {
+				if strings.HasPrefix(a, "empty:") && strings.HasSuffix(facts.StripVersions(a), "."+fld.Name()) {
+					none = facts.Or{L: none, R: facts.Atom(a)}
+				}
+			}
+			want := facts.Or{L: none, R: facts.Or{L: facts.Atom("focus:name"), R: facts.Atom("focus:nsname")}}
+			if !facts.Equivalent(f, ans, want) && bad == "" {
+				bad = "`return " + core.ExprStr(ret.Results[0]) + "` at " + p.Pos(ret.Pos()) + " under " + facts.StripVersions(facts.String(f))
+			}
+		}
+		w.WalkBody(pred.Decl.Body, nil)
+		r.Check(nExit > 0 && bad == "", rule+"-pred", pred.Key()+": matches iff no focus is given, or the name equals it, or namespace/name equals it", p.Pos(pred.Decl.Pos()), fmt.Sprintf("%d exits, each equivalent to (no focus | name == focus | namespace/name == focus) under its path", nExit),
+			"the focus predicate is not the disjunction of the three exact equalities (focus == \"\", peer.Name() == focus, namespace/name == focus): "+bad+" - prefix/suffix/substring matching selects other workloads' entries and makes an absent name match")
+	}
+	// the pair filter: on every exit that is not the constant `false` (those are the exclusions of C05-a / C07-g), the
+	// answer is equivalent to pred(src) | pred(dst) under the exit's path condition
 	{
 		info := incl.Pkg.TypesInfo
 		sig := incl.Obj.Type().(*types.Signature)
 		src, dst := sig.Params().At(sig.Params().Len()-2), sig.Params().At(sig.Params().Len()-1)
-		ok := false
-		n := len(incl.Decl.Body.List)
-		if ret, isRet := incl.Decl.Body.List[n-1].(*ast.ReturnStmt); isRet && len(ret.Results) == 1 {
-			parts := flattenOr(ret.Results[0])
-			got := map[types.Object]bool{}
-			okParts := len(parts) == 2
-			for _, e := range parts {
-				c, isC := ast.Unparen(e).(*ast.CallExpr)
-				if !isC || core.Callee(info, c) != pred.Obj || len(c.Args) != 1 {
-					okParts = false
-					continue
+		w := facts.NewWalker(info)
+		w.Inline = true
+		w.NoInline = func(in *types.Info, c *ast.CallExpr) bool { return core.Callee(in, c) == pred.Obj }
+		nExit := 0
+		bad := ""
+		w.OnExit = func(st int, ret *ast.ReturnStmt, f facts.Formula) {
+			if w.FuncLitDepth > 0 || ret == nil || len(ret.Results) != 1 || !facts.Satisfiable(f) {
+				return
+			}
+			if v, isC := core.ConstString(info, ret.Results[0]); isC && v == "false" {
+				// an exclusion - unless it is reached because of the focus predicate
+				for _, a := range facts.Atoms(f) {
+					if strings.Contains(a, "."+pred.Obj.Name()+"(") && (facts.Entails(f, facts.Atom(a)) || facts.Entails(f, facts.Not{X: facts.Atom(a)})) {
+						goto judged
+					}
 				}
-				if id, isID := ast.Unparen(c.Args[0]).(*ast.Ident); isID {
-					got[info.ObjectOf(id)] = true
+				return
+			}
+		judged:
+			nExit++
+			var ps, pd facts.Formula = facts.False{}, facts.False{}
+			ans := w.Cond(ret.Results[0])
+			for _, a := range append(facts.Atoms(f), facts.Atoms(ans)...) {
+				if strings.HasPrefix(a, "b:") && strings.HasSuffix(a, "."+pred.Obj.Name()+"("+w.PathOfVar(src)+")") {
+					ps = facts.Atom(a)
+				}
+				if strings.HasPrefix(a, "b:") && strings.HasSuffix(a, "."+pred.Obj.Name()+"("+w.PathOfVar(dst)+")") {
+					pd = facts.Atom(a)
 				}
 			}
-			ok = okParts && got[src] && got[dst]
+			// the atom of the end that is not consulted still exists as a proposition: same call, other argument
+			if a, isA := ps.(facts.Atom); isA {
+				if _, has := pd.(facts.Atom); !has {
+					pd = facts.Atom(strings.TrimSuffix(string(a), "("+w.PathOfVar(src)+")") + "(" + w.PathOfVar(dst) + ")")
+				}
+			} else if a, isA := pd.(facts.Atom); isA {
+				ps = facts.Atom(strings.TrimSuffix(string(a), "("+w.PathOfVar(dst)+")") + "(" + w.PathOfVar(src) + ")")
+			}
+			if !facts.Equivalent(f, ans, facts.Or{L: ps, R: pd}) && bad == "" {
+				bad = "`return " + core.ExprStr(ret.Results[0]) + "` at " + p.Pos(ret.Pos()) + " under " + facts.StripVersions(facts.String(f))
+			}
 		}
-		r.Check(ok, rule+"-pred", incl.Key()+": a pair is kept iff its source OR its destination is the focus workload", p.Pos(incl.Decl.Pos()), "isPeerFocusWorkload(src) || isPeerFocusWorkload(dst)",
-			"the pair filter does not end in isPeerFocusWorkload(src) || isPeerFocusWorkload(dst): entries whose two ends both match (or only one) can be dropped")
+		w.WalkBody(incl.Decl.Body, nil)
+		r.Check(nExit > 0 && bad == "", rule+"-pred", incl.Key()+": a pair is kept iff its source OR its destination is the focus workload", p.Pos(incl.Decl.Pos()), "every non-exclusion exit answers isPeerFocusWorkload(src) || isPeerFocusWorkload(dst)",
+			"the pair filter does not answer isPeerFocusWorkload(src) || isPeerFocusWorkload(dst) ("+bad+"): entries whose two ends both match (or only one) can be dropped")
 	}
 	// absent workload: warning, no error
 	if fd := p.Func(core.PkgConnlist, "ConnlistAnalyzer", "getConnectionsList"); fd != nil {
